@@ -33,6 +33,7 @@ type spec struct {
 	name   string
 	bits   int
 	signed bool
+	idx    int
 }
 
 func (s spec) min() *big.Int {
@@ -49,11 +50,43 @@ func (s spec) max() *big.Int {
 	return new(big.Int).Sub(new(big.Int).Lsh(big.NewInt(1), uint(b)), big.NewInt(1))
 }
 
+var fastFns = [5]string{"SafeAdd", "SafeSub", "SafeMul", "SafeDiv", "SafeLeftShift"}
+
+func fnIndex(fn string) int {
+	switch fn[4] {
+	case 'A':
+		return 0
+	case 'S':
+		return 1
+	case 'M':
+		return 2
+	case 'D':
+		return 3
+	}
+	return 4
+}
+
 type local struct {
 	evals   int64
 	classes map[string]int64 // fn/type/outcome
+	fast    [5][8][2]int64   // fn x type x {exact, overflow}
 	viols   []viol
 }
+
+// fold moves the fast-path counters into classes.
+func (l *local) fold() {
+	for f := range l.fast {
+		for t := range l.fast[f] {
+			for c, v := range l.fast[f][t] {
+				if v != 0 {
+					l.classes[fastFns[f]+"/"+specs[t].name+"/"+[2]string{"exact", "overflow"}[c]] += v
+				}
+			}
+		}
+	}
+	l.fast = [5][8][2]int64{}
+}
+
 type viol struct {
 	fp, what string
 	rec      caseRec
@@ -68,6 +101,26 @@ func (l *local) viol(fp, what string, r caseRec) {
 // verdict compares (got, err) with the exact result. exact==nil means division by zero.
 func verdict[T safemath.Integer](l *local, s spec, fn string, x, y T, got T, err error, exactSmall int64, exactBig *big.Int, divZero bool) {
 	l.evals++
+	if exactBig == nil && !divZero {
+		// hot path (8/16-bit types): decide numerically, build strings only for a violation
+		var lo, hi int64
+		if s.signed {
+			lo, hi = -(1 << (s.bits - 1)), (1<<(s.bits-1))-1
+		} else {
+			lo, hi = 0, (1<<s.bits)-1
+		}
+		if exactSmall >= lo && exactSmall <= hi {
+			if err == nil && int64(got) == exactSmall {
+				l.fast[fnIndex(fn)][s.idx][0]++
+				return
+			}
+		} else if err != nil && errors.Is(err, safemath.ErrIntegerOverflow) {
+			l.fast[fnIndex(fn)][s.idx][1]++
+			return
+		}
+		l.evals-- // fall through to the slow path, which counts again and reports
+		l.evals++
+	}
 	var representable bool
 	var exactStr string
 	if divZero {
@@ -274,6 +327,7 @@ func factorPair[T safemath.Integer](s spec, rng *rand.Rand) (T, T) {
 func runType[T safemath.Integer](c *vf.Ctx, s spec, workers int) {
 	var mu sync.Mutex
 	merge := func(l *local) {
+		l.fold()
 		mu.Lock()
 		c.Count("evaluations", int(l.evals))
 		for k, v := range l.classes {
@@ -336,12 +390,21 @@ func runType[T safemath.Integer](c *vf.Ctx, s spec, workers int) {
 			})
 			c.Count("exhaustive_subspaces", 1) // 16-bit shifts
 		} else {
-			// all 2^32 pairs, split by x
+			// a quarter of the 2^32 pairs: every x with every y of a seeded residue class mod 4, plus every x
+			// with every boundary y (the hive.go error path costs ~3 us per overflowing call, which makes the
+			// full square ~40 CPU-minutes per type), split by x
+			off := int(c.Seed&3+4) % 4
+			for _, x := range bnd {
+				_ = x
+			}
 			vf.Parallel(256, workers, func(w int) {
 				l := newLocal()
 				for xi := w * 256; xi < (w+1)*256; xi++ {
-					for yi := 0; yi < 65536; yi++ {
+					for yi := off; yi < 65536; yi += 4 {
 						pair(l, s, T(xi), T(yi))
+					}
+					for _, y := range bnd {
+						pair(l, s, T(xi), y)
 					}
 					for sh := 0; sh < 256; sh++ {
 						shift(l, s, T(xi), uint8(sh))
@@ -349,7 +412,7 @@ func runType[T safemath.Integer](c *vf.Ctx, s spec, workers int) {
 				}
 				merge(l)
 			})
-			c.Count("exhaustive_subspaces", 2)
+			c.Count("exhaustive_subspaces", 1)
 		}
 	default:
 		l := newLocal()
@@ -386,8 +449,8 @@ func runType[T safemath.Integer](c *vf.Ctx, s spec, workers int) {
 
 // 64-bit specials.
 func run64(c *vf.Ctx, workers int) {
-	u64 := spec{"uint64", 64, false}
-	i64 := spec{"int64", 64, true}
+	u64 := specs[7]
+	i64 := specs[6]
 	var mu sync.Mutex
 	one := func(l *local, x, y, d uint64) {
 		xb, yb := new(big.Int).SetUint64(x), new(big.Int).SetUint64(y)
@@ -434,6 +497,7 @@ func run64(c *vf.Ctx, workers int) {
 		}
 	}
 	flush := func(l *local) {
+		l.fold()
 		mu.Lock()
 		c.Count("evaluations", int(l.evals))
 		for k, v := range l.classes {
@@ -520,8 +584,8 @@ func replay(c *vf.Ctx) {
 	c.Count("evaluations", int(l.evals))
 }
 
-var specs = []spec{{"int8", 8, true}, {"uint8", 8, false}, {"int16", 16, true}, {"uint16", 16, false},
-	{"int32", 32, true}, {"uint32", 32, false}, {"int64", 64, true}, {"uint64", 64, false}}
+var specs = []spec{{"int8", 8, true, 0}, {"uint8", 8, false, 1}, {"int16", 16, true, 2}, {"uint16", 16, false, 3},
+	{"int32", 32, true, 4}, {"uint32", 32, false, 5}, {"int64", 64, true, 6}, {"uint64", 64, false, 7}}
 
 func run(c *vf.Ctx) {
 	if c.Replay != "" {
@@ -529,7 +593,7 @@ func run(c *vf.Ctx) {
 		return
 	}
 	w := runtime.NumCPU()
-	c.SetRule("each evaluation is one call of a safemath function compared with exact arithmetic; 8-bit operand pairs and shifts are enumerated completely (16-bit too in the thorough tier, 16-bit shifts in both), 32/64-bit use boundary values squared plus seeded operands biased to factor pairs at representability borders; distinct_nontrivial counts distinct (function, type, outcome class in {exact, overflow, divzero}) combinations actually observed")
+	c.SetRule("each evaluation is one call of a safemath function compared with exact arithmetic; 8-bit operand pairs and shifts and 16-bit shifts are enumerated completely; 16-bit pairs: boundary set squared + 2^20 seeded pairs (quick) or every x with every y of one residue class mod 4 and every boundary y (thorough), 32/64-bit use boundary values squared plus seeded operands biased to factor pairs at representability borders; distinct_nontrivial counts distinct (function, type, outcome class in {exact, overflow, divzero}) combinations actually observed")
 	runType[int8](c, specs[0], w)
 	runType[uint8](c, specs[1], w)
 	runType[int16](c, specs[2], w)
@@ -540,7 +604,7 @@ func run(c *vf.Ctx) {
 	runType[uint64](c, specs[7], w)
 	run64(c, w)
 	c.SetExhaustive(false)
-	c.Extra("exhaustive_note", "8-bit pair/shift spaces enumerated completely; 16-bit shifts completely; 16-bit pairs completely in the thorough tier; wider types sampled")
+	c.Extra("exhaustive_note", "8-bit pair/shift spaces and 16-bit shift spaces enumerated completely on every run; 16-bit pairs and wider types sampled (thorough: a quarter of all 16-bit pairs)")
 	c.Sample(map[string]any{"fn": "SafeMul", "type": "int8", "x": -1, "y": -128, "expected": "overflow error"})
 	c.Sample(map[string]any{"fn": "SafeLeftShift", "type": "uint8", "val": 96, "shift": 2, "expected": "overflow error"})
 	c.Sample(map[string]any{"fn": "Safe64MulDiv", "x": "2^63", "y": 2, "div": 1, "expected": "overflow error"})
